@@ -910,7 +910,9 @@ fn oracle(ctx: &mut Ctx, idx: usize, case: &Case, out: &Out, rng: &mut Rng) {
                 if !(acc.is_finite() && acc >= 0.0) || (needs_access && acc <= 0.0) || (!needs_access && acc != 0.0) {
                     ctx.fail(idx, &format!("{}/access-share", site), format!("access share {}", acc));
                 }
-                if total == 0.0 && t > 0.0 && t <= acc * f64::EPSILON {
+                // the recorded finding is the absorption of the floor by a HUGE access share (>= 1e5);
+                // a zero total at an ordinary access share is a violation of its own
+                if total == 0.0 && t > 0.0 && t <= acc * f64::EPSILON && acc >= 1.0e5 {
                     // explained by rounding alone: the charged total is below one ulp of the access share
                     ctx.fail(idx, "edge_traversal/floor-absorbed", format!("{}: access {} + (total {} - access) = {}", site, acc, t, total));
                 } else if !(total.is_finite() && total > 0.0) {
